@@ -390,7 +390,7 @@ def run_one(m: dict) -> dict:
                 shutil.copy(s, d)
         open(os.path.join(scratch, "src", "asphalt", "core", m["file"]), "w").write(new)
         env = dict(os.environ, PYTHONPATH=os.path.join(scratch, "src"), PYTHONDONTWRITEBYTECODE="1")
-        cmd = ["timeout", "-k", "5", "300", "/venv/bin/python", "-m", "pytest", "-q", "-p", "no:cacheprovider", "-x", "--timeout=60", "tests"]
+        cmd = ["timeout", "-k", "5", "100", "/venv/bin/python", "-m", "pytest", "-q", "-p", "no:cacheprovider", "-x", "--timeout=30", "tests"]
         for t in ALWAYS_FAIL:
             cmd += ["--deselect", t]
         t0 = time.time()
